@@ -143,12 +143,23 @@ package http
 
 //@ func (*Plugin).getSourceID
 //@   ensures !held(p.mu)
+//@   ghost gseq int = 0
+//@   setat "if len(p.sourceIDs) == 0 {" gseq := p.sourceSeq
+//@   assert at "p.mu.Unlock()" p.sourceSeq == gseq || p.sourceSeq == gseq + 1
 //@   assert at "l := len(p.sourceIDs)" len(p.sourceIDs) >= 1
 //@   assert at "l := len(p.sourceIDs)" allrange(p.sourceIDs, 0, p.sourceSeq)
 //@   assert at "l := len(p.sourceIDs)" distinct(p.sourceIDs)
 //@   assert at "p.mu.Unlock()" forall k :: 0 <= k && k < len(p.sourceIDs) ==> p.sourceIDs[k] != x
 //@   assert at "p.mu.Unlock()" 0 <= x && x < p.sourceSeq
 
+// putSourceID only returns the id: the sequence stays (ids of requests still in
+// flight are below it and must never be issued again), the list grows by exactly x.
+
 //@ func (*Plugin).putSourceID
 //@   ensures !held(p.mu)
+//@   ghost seq0 int = 0
+//@   ghost len0 int = 0
+//@   setat "p.sourceIDs = append(p.sourceIDs, x)" seq0 := p.sourceSeq
+//@   setat "p.sourceIDs = append(p.sourceIDs, x)" len0 := len(p.sourceIDs)
+//@   assert at "p.mu.Unlock()" p.sourceSeq == seq0 && len(p.sourceIDs) == len0 + 1 && p.sourceIDs[len0] == x
 //@   assume at "p.sourceIDs = append(p.sourceIDs, x)" 0 <= x && x < p.sourceSeq && (forall k :: 0 <= k && k < len(p.sourceIDs) ==> p.sourceIDs[k] != x)
